@@ -246,9 +246,77 @@ def dump_states(module: str, cfg_text: str, name: str, timeout: int = 600) -> li
             k, _, v = line[3:].partition(" = ")
             cur[k.strip()] = v.strip()
     shutil.rmtree(wd / "meta", ignore_errors=True)
+    try:
+        (wd / "states.dump").unlink()          # (hundreds of MB for a million states)
+    except OSError:
+        pass
     return states
 
 
 def tla_seq_ints(text: str) -> list:
     """<<1, 2, 3>> or {1, 2} -> [1, 2, 3]"""
     return [int(x) for x in re.findall(r"-?\d+", text)]
+
+
+def parse_tla(text: str):
+    """a TLA+ value as TLC prints it (integers, strings, booleans, <<sequences>>, {sets}, [records], (functions as d :> v @@ ...))
+    -> Python (int / str / bool / list / list / dict)."""
+    pos = 0
+    n = len(text)
+
+    def ws():
+        nonlocal pos
+        while pos < n and text[pos] in " \n\t":
+            pos += 1
+
+    def val():
+        nonlocal pos
+        ws()
+        if text.startswith("<<", pos):
+            pos += 2
+            out = []
+            ws()
+            while not text.startswith(">>", pos):
+                out.append(val())
+                ws()
+                if text[pos] == ",":
+                    pos += 1
+                ws()
+            pos += 2
+            return out
+        if text[pos] == "{":
+            pos += 1
+            out = []
+            ws()
+            while text[pos] != "}":
+                out.append(val())
+                ws()
+                if text[pos] == ",":
+                    pos += 1
+                ws()
+            pos += 1
+            return out
+        if text[pos] == "[":
+            pos += 1
+            out = {}
+            ws()
+            while text[pos] != "]":
+                m = re.match(r"(\w+)\s*\|->", text[pos:])
+                pos += m.end()
+                out[m.group(1)] = val()
+                ws()
+                if text[pos] == ",":
+                    pos += 1
+                ws()
+            pos += 1
+            return out
+        if text[pos] == '"':
+            e = text.index('"', pos + 1)
+            r = text[pos + 1:e]
+            pos = e + 1
+            return r
+        m = re.match(r"-?\d+|TRUE|FALSE", text[pos:])
+        pos += m.end()
+        return {"TRUE": True, "FALSE": False}.get(m.group(0), None) if m.group(0) in ("TRUE", "FALSE") else int(m.group(0))
+
+    return val()
